@@ -6,7 +6,7 @@ Correspondence: a history over the operation alphabet of Model/History.v
     Remove t | Ignore t | ResetDep t | ForgetAll | Check t | CheckLog t        (+ Reopen: harness only)
 is executed against the REAL doit.dependency.Dependency on each backend (JsonDB, DbmDB, SqliteDB)
 in a temp dir, with real doit.task.Task objects rebuilt for every operation, files written with
-mtimes taken from the harness clock (os.utime, integer seconds) -- and inside Coq with
+mtimes taken from the harness clock (os.utime, in quarters of a second, so that different mtimes can share a whole second) -- and inside Coq with
 `observe [0;1;2] [0;1;2] (run md5 size_of current ops)`.
 
   Check t     = dep.get_status(task, tasks).status + task.dep_changed
@@ -241,7 +241,8 @@ class World:
         p = self.path(f)
         with open(p, 'wb') as fh:
             fh.write(CONTENT[c])
-        ns = (BASE + m) * 10 ** 9
+        # harness-clock unit = a quarter of a second: distinct mtimes may fall into the same whole second
+        ns = BASE * 10 ** 9 + m * 250000000
         os.utime(p, ns=(ns, ns))
         self.fsview[f] = (m, len(CONTENT[c]), c)
         if self.seen.setdefault((f, m), (len(CONTENT[c]), c)) != (len(CONTENT[c]), c):
@@ -413,9 +414,9 @@ class World:
                 if st is None:
                     out += [0, 0, 0, 0]
                 elif isinstance(st, (list, tuple)):
-                    out += [1, int(st[0]) - BASE, st[1], DIGEST.get(st[2], 92)]
+                    out += [1, int(round((st[0] - BASE) * 4)), st[1], DIGEST.get(st[2], 92)]
                 else:
-                    out += [2, int(st) - BASE, 0, 0]
+                    out += [2, int(round((st - BASE) * 4)), 0, 0]
             vals = dep.get_values(name)
             for key in VKEYS:
                 if key not in vals:
